@@ -9,11 +9,13 @@ import (
 	"fmt"
 	"os"
 	"os/exec"
+	"os/signal"
 	"path/filepath"
 	"sort"
 	"strconv"
 	"strings"
 	"sync"
+	"syscall"
 	"time"
 
 	"golang.org/x/tools/go/ssa"
@@ -123,6 +125,17 @@ func main() {
 		fmt.Fprintln(os.Stderr, "usage: gosym check <ID> <quick|thorough> | gosym replay <file> | gosym list")
 		os.Exit(2)
 	}
+	// an interrupted run (timeout, vp stop) removes its scratch directory too
+	sigc := make(chan os.Signal, 1)
+	signal.Notify(sigc, syscall.SIGTERM, syscall.SIGINT, syscall.SIGHUP)
+	go func() {
+		<-sigc
+		if lastWorkDir != "" {
+			os.RemoveAll(lastWorkDir)
+		}
+		fmt.Fprintln(os.Stderr, "gosym: interrupted")
+		os.Exit(2)
+	}()
 	switch os.Args[1] {
 	case "check":
 		os.Exit(cmdCheck(os.Args[2:]))
@@ -136,7 +149,17 @@ func main() {
 	}
 }
 
-func newRunner(tierName string, verbose bool) (*runner, error) {
+var lastWorkDir string
+
+func newRunner(tierName string, verbose bool) (rr *runner, rerr error) {
+	defer func() {
+		if rerr != nil && rr == nil {
+			// setup failed: do not leave the work directory behind
+			if lastWorkDir != "" {
+				os.RemoveAll(lastWorkDir)
+			}
+		}
+	}()
 	r := &runner{tierName: tierName, verbose: verbose, testBins: map[string]string{}, covered: map[*ssa.Function]int{}}
 	if tierName == "thorough" {
 		r.tier = 1
@@ -146,8 +169,13 @@ func newRunner(tierName string, verbose bool) (*runner, error) {
 		return nil, err
 	}
 	r.workDir = wd
+	lastWorkDir = wd
 	extra, err := writeRegistry(wd)
 	if err != nil {
+		return nil, err
+	}
+	// storage-fault shim at bbolt's own Put failpoint (overlay only)
+	if err := bboltFaultOverlay(wd, extra); err != nil {
 		return nil, err
 	}
 	ov, err := overlayFiles(extra)
@@ -219,6 +247,43 @@ func newRunner(tierName string, verbose bool) (*runner, error) {
 		}
 	}
 	return r, nil
+}
+
+// bboltFaultOverlay adds one overlay entry inside the bbolt module directory: a
+// copy of bucket.go whose gofail failpoint comment in Put is turned into a call
+// of a countdown (appended to the same file).
+func bboltFaultOverlay(workDir string, extra map[string]string) error {
+	cmd := exec.Command("go", "list", "-m", "-f", "{{.Dir}}", "go.etcd.io/bbolt")
+	cmd.Dir = repoDir
+	cmd.Env = append(os.Environ(), "GOFLAGS=-mod=mod", "GOPROXY=off", "GOSUMDB=off", "GOTOOLCHAIN=local")
+	out, err := cmd.Output()
+	if err != nil {
+		return fmt.Errorf("locating go.etcd.io/bbolt: %v", err)
+	}
+	dir := strings.TrimSpace(string(out))
+	src, err := os.ReadFile(filepath.Join(dir, "bucket.go"))
+	if err != nil {
+		return err
+	}
+	const marker = "// gofail: var beforeBucketPut struct{}"
+	if strings.Count(string(src), marker) != 1 {
+		return fmt.Errorf("bbolt's bucket.go has no unique %q failpoint marker (other bbolt version?)", marker)
+	}
+	patched := strings.Replace(string(src), marker, "if verifPutFault() {\n\t\treturn ErrVerifInjected\n\t}", 1)
+	// new files cannot be added to a module-cache package by overlay (the go
+	// command lists those from its module index), so the countdown is appended
+	// to the replaced file
+	tail, err := os.ReadFile(filepath.Join(harnessDir, "bboltfault", "fault.go.txt"))
+	if err != nil {
+		return err
+	}
+	patched += string(tail)
+	pf := filepath.Join(workDir, "bbolt_bucket_fault.go")
+	if err := os.WriteFile(pf, []byte(patched), 0o644); err != nil {
+		return err
+	}
+	extra[filepath.Join(dir, "bucket.go")] = pf
+	return nil
 }
 
 func (r *runner) cleanup() { os.RemoveAll(r.workDir) }
